@@ -38,7 +38,7 @@ MPin == \E k \in Keys : DoSetPin(k[1], k[2]) /\ UNCHANGED <<pvars, used, lastHea
 \* Head(): the proto layer settles pending votes and connections, the abstract layer is unchanged
 MHead == \E reply \in {PFindHead(Ep, Settled(bal)[1], HeadStart)} :
             /\ PHeadStep(bal, HeadStart, reply)
-            /\ lastHead' = <<reply, HeadOf(Ctx)>>
+            /\ lastHead' = <<reply, HeadOf(Ctx, TRUE)>>   \* lock-step with the implementation's legacy start rule (finding fc-gap-start)
             /\ UNCHANGED <<fcvars, used>>
 
 \* UpdateJustified: refusal rules from the proto layer's InSubtree must agree (invariant AgreeInSubtree);
